@@ -21,6 +21,18 @@ CLAIMS = {
     text="Partial. The real logistic fits (binary and multinomial, argmin L-BFGS on f64) are executed for every label vector over a 3-4 letter alphabet (labels are symbolic class labels; the solver enumerates all feasible paths of label coding, error handling and decisions), on four concrete feature families (1-2 columns, centred / offset / badly scaled), alpha in {0, 1/8, 1, 8}, with and without intercept. On every path: error iff the class count is wrong, reported class set == training labels, probabilities in [0,1] (rows summing to one), predicted class == what probability and threshold / arg-max imply, and the gradient of the documented penalised negative log-likelihood recomputed from first principles vanishes (<= 1e-3). Features are not symbolic (linfa-logistic is tied to primitive floats), Tweedie GLM and probabilities at extreme inputs are outside the claim.",
     technique="concolic enumeration of label vectors (symbolic labels, z3) over the real fit; per-path numeric stationarity oracle; native replay",
     design_ref="DESIGN.md §4 C12"),
+ "C01": dict(
+    text="Symbolic execution of the real fold / iter_fold / sample_chunks / cross_validate(_single) code for every shape 2<=k<=n<=12 (quick: n<=7), 1-2 feature columns, Ix1 and Ix2 targets, owned datasets and views, 1-2 models: every record/target cell is a distinct symbolic input that linfa only moves, so partition, block positions, record-target pairing and restoration after in-place folding are decided by term identity on the single path of each shape; cross-validation scores are symbolic terms (mean of solver-chosen per-fold evaluation values) checked by z3 (|score*k - sum| <= 1e-6), and injected fit/eval failures (solver-chosen fold and model) must surface as that error.",
+    technique="symbolic-scalar execution of the compiled generic code (term identity) + SMT (z3) for the score arithmetic; native f64 replay",
+    design_ref="DESIGN.md §4 C01"),
+ "C02": dict(
+    text="Same machinery for the dataset operations: each cell/weight/name carries an identity, each operation (ratio split owned/view over ~300 f32 ratios incl. ulp neighbours, shuffle/bootstrap with a solver-scripted RNG so that every draw sequence is a path, with_labels, one_vs_all, chunking, sample/target/feature iteration, map_targets, view, into_single_target, to_owned, label counts) is run alone for n<=8 (12 thorough) and composed in all ordered pairs (n<=5) and triples (n<=3-4); outputs must be exactly the documented selection with record, target, weight and names of one original sample/column. Label-based operations run on symbolic labels (all label vectors enumerated by the solver).",
+    technique="symbolic-scalar execution (term identity), solver-guided enumeration of RNG scripts and label vectors (z3); native replay",
+    design_ref="DESIGN.md §4 C02"),
+ "C20": dict(
+    text="Partial (hash order and seeds; thread schedules are outside). Every listed estimator (k-means with the default seed / a fixed seed, decision tree, Gaussian and multinomial naive Bayes, elastic net, OLS, min-max scaler, linear SVM) is built from its public default constructor and fitted 3-8 times inside one run on the same symbolic data - each fit creates fresh std HashMaps with fresh random SipHash keys - and all learned quantities must be the *same terms* (hash-consed, associativity-sensitive: a reduction whose order follows map iteration yields a different term) and all predictions equal, on every feasible path of the fits at the listed tiny shapes. Tree-specific harnesses additionally pin impurity bits and tied-leaf predictions.",
+    technique="symbolic-scalar concolic execution with repeated fits per path; term identity as bit-identity oracle; z3 for path enumeration",
+    design_ref="DESIGN.md §4 C20"),
 }
 NA = {}
 
